@@ -1075,3 +1075,80 @@ Theorem set_endpoint_keeps_table : forall st p ep,
   s_tbl (fst (step st (SetEp p ep))) = s_tbl st /\
   s_mtu (fst (step st (SetEp p ep))) = s_mtu st.
 Proof. intros st p ep. split; [apply step_tbl|rewrite step_mtu; reflexivity]. Qed.
+
+(* ------------------------------------------------ racing responses, port-only roaming *)
+
+Lemma send_staged_ep mtu i p p' os : send_staged mtu i p = (p', os) -> p_ep p' = p_ep p.
+Proof.
+  unfold send_staged. destruct (p_staged p) as [|c0 q0].
+  - intros H; inversion H; subst; auto.
+  - destruct (usable p) as [s|].
+    + intros H; inversion H; subst; auto.
+    + unfold initiate. destruct (p_hs_recent p); intros H; inversion H; subst; auto.
+Qed.
+
+Lemma peer_step_answer_data tbl mtu up i p j ridx e p' os q ep rcv ctr pk m :
+  peer_step tbl mtu up i p (AnswerHs j ridx e) = (p', os) -> In (OData q ep rcv ctr pk m) os ->
+  q = j /\ rcv = ridx /\ ep = e.
+Proof.
+  cbn [peer_step]. destruct up; cbn [negb]; [|intros H; inversion H; subst; intros []].
+  destruct (j =? i) eqn:Hj; cbn [andb]; [|intros H; inversion H; subst; intros []].
+  destruct (p_init_out p); [|intros H; inversion H; subst; intros []].
+  apply N.eqb_eq in Hj. subst j.
+  intros H Hin.
+  destruct (send_staged_data _ _ _ _ _ _ _ _ _ _ _ H Hin) as (A & _ & _ & s & B1 & B2 & _ & B4 & _).
+  destruct (send_staged_sess _ _ _ _ _ _ H B1) as (s0 & C1 & C2).
+  apply send_staged_ep in H.
+  split; [exact A|].
+  unfold set_sess in C1, H; cbn [p_staged p_sess p_ep p_init_out] in C1, H; destruct (p_staged p); cbn [p_staged p_sess p_ep] in C1, H; injection C1 as C1; rewrite <- C1 in C2; cbn in C2; rewrite H in B4; injection B4 as B4; split; congruence.
+Qed.
+
+Theorem step_answer_data : forall st j ridx e q ep rcv ctr pk m,
+  In (OData q ep rcv ctr pk m) (snd (step st (AnswerHs j ridx e))) -> q = j /\ rcv = ridx /\ ep = e.
+Proof.
+  intros st j ridx e q ep rcv ctr pk m. unfold step.
+  destruct (step_peers (s_tbl st) (mtu_after (s_mtu st) (AnswerHs j ridx e)) (s_up st) (AnswerHs j ridx e) 0 (s_peers st)) as [ps o] eqn:Hsp.
+  cbn [snd]. intros Hin.
+  destruct (step_peers_out _ _ _ _ _ _ _ _ _ Hsp Hin) as (k & p0 & p0' & o' & A & B & C & D).
+  eapply peer_step_answer_data; eauto.
+Qed.
+
+(* Two authenticating responses to one initiation, (Sender ra, from ea) and (Sender rb, from eb), reach two
+   handshake workers at once; the schedule w decides which one completes the handshake, the other is refused.
+   Whatever the schedule, every transport datagram of the step carries the receiver index AND goes to the
+   source address of the SAME response: never the index of one with the endpoint of the other. *)
+Theorem racing_responses_consistent : forall st p ra ea rb eb w q ep rcv ctr pk m,
+  In (OData q ep rcv ctr pk m) (snd (step st (answer_race p ra ea rb eb w))) ->
+  q = p /\ ((rcv = ra /\ ep = ea) \/ (rcv = rb /\ ep = eb)).
+Proof.
+  intros st p ra ea rb eb w q ep rcv ctr pk m. unfold answer_race. destruct w; intros H;
+    apply step_answer_data in H; destruct H as (A & B & C); auto.
+Qed.
+
+Theorem racing_responses_one_completes : forall st p ra ea rb eb w,
+  step st (answer_race p ra ea rb eb w) = step st (AnswerHs p (if w then rb else ra) (if w then eb else ea)).
+Proof. intros; destruct w; reflexivity. Qed.
+
+Lemma tun_step_ep tbl mtu i p pkts p' os : tun_step tbl mtu i p pkts = (p', os) -> p_ep p' = p_ep p.
+Proof.
+  unfold tun_step. destruct (filter _ pkts).
+  - intros H; inversion H; subst; auto.
+  - intros H. apply send_staged_ep in H. exact H.
+Qed.
+
+(* An authenticated packet from another source — in the harness: the same address and another port — moves the
+   endpoint of a peer with a usable session, silently; every transport datagram of the next TUN batch for that
+   peer goes to the new endpoint. *)
+Theorem roam_moves_endpoint : forall tbl mtu i p ep p1 o1,
+  peer_step tbl mtu true i p (Roam i ep) = (p1, o1) -> usable p <> None ->
+  o1 = [] /\ p_ep p1 = Some ep /\
+  forall pkts p2 o2 q ep' rcv ctr pk m,
+    peer_step tbl mtu true i p1 (TunBatch pkts) = (p2, o2) -> In (OData q ep' rcv ctr pk m) o2 -> ep' = ep.
+Proof.
+  intros tbl mtu i p ep p1 o1 H Hu. cbn [peer_step negb] in H. rewrite N.eqb_refl in H. cbn [andb] in H.
+  destruct (usable p) as [s|]; [|congruence].
+  inversion H; subst; clear H. cbn [p_ep]. repeat split; auto.
+  intros pkts p2 o2 q ep' rcv ctr pk m H Hin.
+  destruct (peer_step_data _ _ _ _ _ _ _ _ _ _ _ _ _ _ H Hin) as (_ & _ & s' & _ & _ & _ & E & _).
+  cbn [peer_step negb] in H. apply tun_step_ep in H. cbn [p_ep] in H. congruence.
+Qed.
